@@ -471,6 +471,21 @@ def _op_solve(ctx, op, state):
             if not np.isfinite(db) or db > 1e-9:
                 ctx.violate("batch-size", "solve", which, f"the potential at the same points differs by {db:.3g} between a call with {nbig} points and a call with {len(sel)} of them")
         ctx.probes.hit("potential-evaluated-at-%d-points" % nbig)
+    if oc[0] == "ok" and "mol" not in ctx.spec:
+        # the one batch size that is natural for this object - exactly as many points as the atomic grid has (one grid's
+        # potential evaluated on another grid of the same size) - against the same points in a batch one shorter
+        ag1 = g.atgrids[0] if hasattr(g, "atgrids") else g
+        cc1 = np.atleast_2d(np.asarray(c, dtype=float))[0]
+        own = cc1 + np.random.RandomState(bseed + 29).uniform(-2.5, 2.5, size=(int(ag1.size), 3))
+        oa = _outcome(lambda: np.asarray(held["pot"](own.copy()), dtype=float))
+        ob2 = _outcome(lambda: np.asarray(held["pot"](own[:-1].copy()), dtype=float))
+        if oa[0] == "ok" and ob2[0] == "ok" and oa[1].shape == (len(own),):
+            dn = float(np.max(np.abs(oa[1][:-1] - ob2[1]))) / max(1.0, float(np.max(np.abs(ob2[1])))) if len(own) > 1 else 0.0
+            if not np.isfinite(dn) or dn > 1e-9:
+                ctx.violate("batch-size", "solve", f"{which}:grid-size", f"the potential at the same points differs by {dn:.3g} between a batch of exactly atgrid.size = {len(own)} points and a batch one shorter")
+        elif oa[0] == "raise":
+            ctx.violate("batch-size", "solve", f"{which}:grid-size:raise", f"the returned potential raised {oa[1]!r} for a batch of atgrid.size points")
+        ctx.probes.hit("potential-evaluated-on-a-batch-of-grid-size")
     if oc[0] == "ok" and (bseed + ctx.step) % 6 == 3:
         # the dtype and container of the evaluation points are the caller's business too: an integer probe lattice
         # (np.mgrid, int64 or int32), single precision - same positions, same potential
